@@ -64,11 +64,11 @@ case "$cmd" in
     shift
     exec "$BIN/simcheck" selftest "$@"
     ;;
-  C09|C11|C12|C13|C14|C15)
+  C09|C12|C13|C14|C15)
     build_locked || exit 2
     exec "$BIN/simcheck" run "$cmd" "${2:-quick}"
     ;;
-  C10)
+  C10|C11)
     build_locked race || exit 2
     exec "$BIN/simcheck" run "$cmd" "${2:-quick}"
     ;;
